@@ -549,6 +549,78 @@ def explore_neighbours(ctx, rng, stats, violations):
 # explore / replay
 # ------------------------------------------------------------------------------------------------------------------
 
+BAD_UTF8 = [b"\xc0\x80", b"\xc1\xbf", b"\xe0\x80\x80", b"\xe0\x9f\xbf", b"\xed\xa0\x80", b"\xed\xbf\xbf", b"\xf0\x80\x80\x80",
+            b"\xf0\x8f\xbf\xbf", b"\xf4\x90\x80\x80", b"\xf5\x80\x80\x80", b"\xf8\x88\x80\x80\x80", b"\xff", b"\xfe", b"\x80", b"\xbf",
+            b"\xc2", b"\xe2\x82", b"\xf0\x9f\x98", b"\xe2\x28\xa1", b"\xf0\x28\x8c\xbc", b"\xc2\xc2\x80"]
+EDGE_CPS = [0, 0x7F, 0x80, 0x7FF, 0x800, 0xD7FF, 0xE000, 0xFFFD, 0xFFFF, 0x10000, 0x10FFFF, 0x0A, 0x0D, 0x85, 0x2028]
+
+
+def decoder_cases(rng, n):
+    """byte strings for the READ side of TextFileStore(encoding="utf-8" / "utf-16"): valid encodings (all boundary code
+    points), and invalid ones (overlong forms, encoded surrogates, > U+10FFFF, truncated and stray bytes; for utf-16: all
+    BOM variants, odd lengths, lone and misordered surrogate units)"""
+    out = []
+    edge = "".join(map(chr, EDGE_CPS))
+    out.append(("utf-8", edge.encode("utf-8")))
+    for c in EDGE_CPS:
+        out.append(("utf-8", chr(c).encode("utf-8")))
+        for bom in (b"\xff\xfe", b"\xfe\xff", b""):
+            body = chr(c).encode("utf-16-be" if bom == b"\xfe\xff" else "utf-16-le")
+            out.append(("utf-16", bom + body))
+    for bad in BAD_UTF8:
+        out.append(("utf-8", bad))
+        out.append(("utf-8", b"a" + bad + b"b"))
+        out.append(("utf-8", "é€".encode("utf-8") + bad))
+    for u in (b"\x00\xd8", b"\x00\xdc", b"\x00\xd8A\x00", b"\x00\xdc\x00\xd8", b"\x3d\xd8\x00\xde", b"A", b"A\x00B", b"\xff\xfe", b"\xfe\xff",
+              b"\xff\xfe\xff\xfe", b"\xfe\xff\xd8\x3d\xde\x00", b"\xfe\xff\xde\x00\xd8\x3d", b"\xff\xfeA", b""):
+        out.append(("utf-16", u))
+    out.append(("utf-8", b""))
+    for _ in range(n):
+        enc = rng.choice(["utf-8", "utf-16"])
+        s = sc.gen_text(rng, enc, rng.choice([1, 3, 12, 40]))
+        b = s.encode(enc, "surrogatepass" if rng.random() < 0.15 else "ignore")
+        r = rng.random()
+        if r < 0.35 and b:
+            k = rng.randrange(len(b))
+            b = b[:k] + bytes([rng.randrange(256)]) + b[k + 1:]
+        elif r < 0.5 and b:
+            b = b[:rng.randrange(len(b))]
+        elif r < 0.6:
+            k = rng.randrange(len(b) + 1)
+            b = b[:k] + rng.choice(BAD_UTF8) + b[k:]
+        elif r < 0.7 and enc == "utf-16" and len(b) >= 2:
+            b = rng.choice([b"\xfe\xff" + bytes(x for i in range(2, len(b) - 1, 2) for x in (b[i + 1], b[i])), b[2:]])
+        out.append((enc, b))
+    return out
+
+
+def explore_decoders(ctx, rng, stats, disagreements):
+    """the strict decoders of the model (`utf8Dec`, `utf16Dec`, proved to invert the encoders) against what the real
+    TextFileStore.read() does with arbitrary file content"""
+    cases = decoder_cases(rng, 150 if ctx.tier == "quick" else 6000)
+    lines, real = [], []
+    for enc, b in cases:
+        with sc.scratch_dir("c12") as d:
+            p = os.path.join(d, "value")
+            with open(p, "wb") as f:
+                f.write(b)
+            try:
+                got = "ok r=" + show_str(sc.make_store("TextFileStore", p, enc).read())
+                stats["decoder_ok"] = stats.get("decoder_ok", 0) + 1
+            except UnicodeError:       # UnicodeDecodeError, or the stream decoder's "UTF-16 stream does not start with BOM"
+                got = "err"
+                stats["decoder_rejects"] = stats.get("decoder_rejects", 0) + 1
+        lines.append("text %s | %s" % ("dec8" if enc == "utf-8" else "dec16", " ".join(map(str, b))))
+        real.append(got)
+    if ctx.driver is not None:
+        for (enc, b), want, reply in zip(cases, real, ctx.driver.batch(lines)):
+            if reply.strip() != want.strip():
+                disagreements.append({"layer": "textcodec-decoder", "case": {"encoding": enc, "bytes": b.hex()}, "impl": want[:300],
+                                      "model": reply.strip()[:300]})
+                return
+        stats["model_comparisons"] += len(lines)
+
+
 def explore(ctx, seed_shift=0):
     rng = random.Random(ctx.seed * 104729 + 5 + seed_shift)
     stats = {"text": 0, "text_unencodable": 0, "text_with_cr": 0, "text_raw_reads": 0, "classes": set(), "mounted": 0,
@@ -557,6 +629,8 @@ def explore(ctx, seed_shift=0):
     violations, disagreements = [], []
     try:
         explore_text(ctx, rng, stats, violations, disagreements)
+        if not violations and not disagreements:
+            explore_decoders(ctx, rng, stats, disagreements)
         if not violations:
             explore_values(ctx, rng, stats, violations)
         if not violations:
